@@ -470,6 +470,71 @@ def case_clash(ctx, idx, mods, opts, max_perms):
     return res
 
 
+LEAF_RE = re.compile(r"(MIN|-?\d+)\.\.(MAX|-?\d+|[a-z][A-Za-z0-9-]*)|([A-Z][A-Za-z0-9-]*(?:\.[A-Z][A-Za-z0-9-]*)?)|(-?\d+|[a-z][A-Za-z0-9-]*)")
+
+
+def constraint_leaves(text):
+    """the leaves of a printed constraint, left to right: ("r", lo, hi) | ("t", TypeName) | ("v", value); the set
+    operators, parentheses and SIZE/FROM wrappers are dropped (the model keeps the sequence of leaves only)"""
+    out = []
+    for m in LEAF_RE.finditer(re.sub(r"\b(SIZE|FROM|INCLUDES)\b", " ", text)):
+        if m.group(1) is not None:
+            out.append(("r", m.group(1), m.group(2)))
+        elif m.group(3) is not None:
+            out.append(("t", m.group(3)))
+        else:
+            out.append(("v", m.group(4)))
+    return out
+
+
+def parse_print_constraints(text):
+    """`asn1c -E -F -print-constraints` output -> {module: {"text": block, "types": {Name: {"combined": str|None, "practical": str|None}}}}"""
+    mods = {}
+    for b in re.split(r"\n(?=\S+ DEFINITIONS\b)", text):
+        if not b.strip():
+            continue
+        name = b.split()[0]
+        types, cur = {}, None
+        for line in b.split("\n"):
+            m = re.match(r"([A-Za-z][A-Za-z0-9-]*) ::= ", line)
+            if m:
+                cur = m.group(1)
+                types[cur] = {"combined": None, "practical": None}
+            elif cur and line.startswith("-- Combined constraints: "):
+                types[cur]["combined"] = line[len("-- Combined constraints: "):]
+            elif cur and line.startswith("-- Practical constraints"):
+                types[cur]["practical"] = line.split("): ", 1)[-1].strip()
+        mods[name] = {"text": b.strip(), "types": types}
+    return mods
+
+
+def case_xmod(ctx, idx, xset, opts, max_perms=6):
+    """one cross-module set, every order of the file list: exit status of `-E -F -print-constraints` and of code
+    generation, the per-module printed constraints, the per-type files"""
+    asn1c, skel, root = ctx
+    mods = xset["mods"]
+    d = os.path.join(root, "x%05d" % idx)
+    names = ["in/f%d.asn1" % i for i in range(len(mods))]
+    texts = {names[i]: m["text"] for i, m in enumerate(mods)}
+    perms = list(itertools.permutations(range(len(mods))))[:max_perms]
+    res = {"idx": idx, "perms": []}
+    for pi, perm in enumerate(perms):
+        P = os.path.join(d, "p%d" % pi)
+        write_inputs(P, texts)
+        files = [names[i] for i in perm]
+        rcE, so, seE = run_cmd([asn1c, "-E", "-F", "-print-constraints"] + files, P)
+        rcG, tree, seG = run_gen(ctx, P, files, opts)
+        res["perms"].append({"perm": perm, "rcE": rcE, "rcG": rcG, "pc": parse_print_constraints(so.decode("latin1")) if rcE == 0 else {},
+                             "files": per_type(tree), "seE": seE[-400:], "seG": seG[-400:]})
+    # once more in the first order with a larger environment (determinism of the multi-file run)
+    P = os.path.join(d, "p0b")
+    write_inputs(P, texts)
+    rcG, tree, _ = run_gen(ctx, P, [names[i] for i in perms[0]], opts, env=padded_env(3100 + idx % 9))
+    res["det"] = (rcG, diff_trees(per_type(tree), res["perms"][0]["files"]) if rcG == 0 and res["perms"][0]["rcG"] == 0 else [])
+    shutil.rmtree(d, ignore_errors=True)
+    return res
+
+
 def case_corpus_gen(ctx, idx, path, opts):
     """code generation from a shipped corpus file: process-image determinism, valgrind, alphabet tables"""
     asn1c, skel, root = ctx
@@ -750,6 +815,16 @@ def main(tier):
         opts = OPTION_SETS[0] if i % 2 == 0 else rng.choice(OPTION_SETS)
         csets.append((mods, opts))
     clash_futs = [pool.submit(case_clash, ctx, i, mods, opts, 6) for i, (mods, opts) in enumerate(csets)]
+    # cross-module constraint resolution: every shape once (directed), then random shapes; two witnesses of the
+    # recorded finding
+    nx = 18 if quick else 120
+    xsets = []
+    for i in range(nx):
+        xsets.append(G.xmod_set(rng, i, G.XM_SHAPES[i] if i < len(G.XM_SHAPES) else None))
+    xsets.append(G.xmod_witness(rng, 900, "fatal"))
+    xsets.append(G.xmod_witness(rng, 901, "silent"))
+    XOPTS = [OPTION_SETS[0], ["-pdu=all", "-fcompound-names", "-no-gen-OER"], ["-pdu=auto", "-fcompound-names", "-fwide-types"]]
+    xmod_futs = [pool.submit(case_xmod, ctx, i, xs, XOPTS[i % 3]) for i, xs in enumerate(xsets)]
     nsets = 12 if quick else 80
     sets = []
     for i in range(nsets):
@@ -1056,6 +1131,124 @@ def main(tier):
                           "t0": dupmod, "model": mo, "rc": rcd, "stderr": sed[-300:]}, no_input=True)
         shutil.rmtree(dd, ignore_errors=True)
 
+    # 4d. cross-module constraint resolution: exit status, printed constraints and per-type files under every
+    #     order of the file list; combined constraints against the model (Fix/Pullup.v) and against python's own
+    #     order-free evaluation
+    pull_lines, pull_keys = [], []
+    for xi, xs in enumerate(xsets):
+        if xs["xs"] is None:
+            continue
+        for perm in list(itertools.permutations(range(len(xs["mods"]))))[:6]:
+            pull_lines.append("c12_pull " + " ".join(xs["xs"].model_args(perm, xs["mods"])))
+            pull_keys.append((xi, perm))
+    model_pull = {}
+    if have_model and pull_lines:
+        rcm, mo, me = run_lines(model, pull_lines)
+        if rcm != 0 or len(mo) != len(pull_lines):
+            run.violation("model:driver", {"what": "model driver failed on c12_pull", "stderr": me}, no_input=True)
+        else:
+            model_pull = dict(zip(pull_keys, mo))
+    for xi, (xs, f) in enumerate(zip(xsets, xmod_futs)):
+        r = f.result()
+        mods = xs["mods"]
+        run.case("xmod:%s:%s" % (xs["shape"], "+".join(m["name"] for m in mods)))
+        run.count("xmod_shape:" + xs["shape"])
+        rep = {"files": [m["text"] for m in mods], "shape": xs["shape"],
+               "replay_cmd": "asn1c -E -F -print-constraints f0.asn1 f1.asn1 ...  and  asn1c -S skeletons -pdu=all -fcompound-names -D out f0.asn1 ...  in every order of the files"}
+        perms = r["perms"]
+        base = perms[0]
+        run.count("xmod_permutations", len(perms))
+        if base["rcG"] == 0:
+            run.count("xmod_compiled")
+            run.count("xmod_per_type_files", len(base["files"]))
+        deviating = []
+        for p in perms[1:]:
+            why = None
+            if (p["rcE"], p["rcG"]) != (base["rcE"], base["rcG"]):
+                why = "exit status -E -F %d / code generation %d (first order: %d / %d): %s" % (p["rcE"], p["rcG"], base["rcE"], base["rcG"],
+                                                                                               (p["seE"] or p["seG"] or base["seE"] or base["seG"]).strip().split("\n")[-1][:200])
+            else:
+                dm = sorted(m for m in set(p["pc"]) | set(base["pc"]) if p["pc"].get(m, {}).get("text") != base["pc"].get(m, {}).get("text"))
+                dfl = diff_trees(base["files"], p["files"])
+                if dm or dfl:
+                    k0 = dfl[0] if dfl else None
+                    why = {"printed_constraints_differ_in": dm, "files": dfl[:8],
+                           "first": first_diff(base["files"].get(k0, b""), p["files"].get(k0, b"")) if k0 else
+                                    first_diff(base["pc"].get(dm[0], {}).get("text", ""), p["pc"].get(dm[0], {}).get("text", ""))}
+            if why:
+                deviating.append((p["perm"], why))
+        pairs = includes_foreign_with_refs(mods)
+        if deviating:
+            dev_perms = [d[0] for d in deviating] 
+            all_perms = [p["perm"] for p in perms]
+            explained = False
+            for (pi, qi) in pairs:
+                # the results agree among the orders that name Q before P; every other result belongs to an order with P before Q
+                good = [pm for pm in all_perms if pm.index(qi) < pm.index(pi)]
+                badp = [pm for pm in all_perms if pm.index(pi) < pm.index(qi)]
+                ref = good[0] if good else None
+                classes = {pm: (pm not in dev_perms) == (all_perms[0] not in dev_perms or pm == all_perms[0]) for pm in all_perms}
+                if good and all(same_xmod_result(perms, g, ref) for g in good) and \
+                        all(pm in badp for pm in all_perms if not same_xmod_result(perms, pm, ref)):
+                    explained = True
+            if explain_stale_asn(xs, perms):
+                run.known_finding("C12-print-constraints-stale-asn", xs["shape"])
+                run.count("xmod_known:C12-print-constraints-stale-asn")
+            elif explained:
+                run.known_finding("C12-includes-foreign-namespace", xs["shape"])
+                run.count("xmod_known:C12-includes-foreign-namespace")
+            else:
+                run.violation("oracle:file-order", dict(rep, what="exit status, printed constraints or per-type files depend on the order of the input file list "
+                              "(constraint resolution across modules)", deviating=[list(map(str, x)) for x in deviating[:4]]))
+        else:
+            run.count("xmod_order_independent")
+            if xs["witness"]:
+                run.violation("oracle:finding-not-reproduced", dict(rep, what="the witness of C12-includes-foreign-namespace is order independent: "
+                              "finding fixed? (update findings.d/C12.json)"), no_input=True)
+        rcd, dd = r["det"]
+        if rcd != base["rcG"] or dd:
+            run.violation("oracle:determinism", dict(rep, what="repeated multi-file runs differ (cross-module constraint set)", files=dd[:8]))
+        # combined constraints: C vs model (per order) and vs python's order-free evaluation
+        if xs["xs"] is not None:
+            X = xs["xs"]
+            want_py = {}
+            for ti, t in enumerate(X.types):
+                lv = X.leaves(ti)
+                want_py[t["name"]] = None if lv is None else [(("r", str(l[1]), str(l[2])) if l[0] == "L" else ("t", X.types[l[1]]["name"])) for l in lv]
+            cbad, obad = [], []
+            for p in perms:
+                if p["rcE"] != 0:
+                    continue
+                got = {}
+                for mname, mb in p["pc"].items():
+                    for tn, info in mb["types"].items():
+                        got[tn] = None if info["combined"] is None else constraint_leaves(info["combined"])
+                mline = model_pull.get((xi, p["perm"]))
+                if mline is not None:
+                    run.count("pullup_cases")
+                    words = mline.split()
+                    if words[:2] != ["wf=true", "ok=true"] or len(words) != 2 + len(X.types):
+                        cbad.append((p["perm"], "model refuses the set: " + mline[:100]))
+                    else:
+                        for ti, t in enumerate(X.types):
+                            wm = model_word_leaves(words[2 + ti], X)
+                            if got.get(t["name"], "absent") != wm:
+                                cbad.append((p["perm"], t["name"], {"model": wm, "c": got.get(t["name"], "absent")}))
+                for tn, wl in want_py.items():
+                    if got.get(tn, "absent") != wl:
+                        obad.append((p["perm"], tn, {"expected": wl, "c": got.get(tn, "absent")}))
+            if cbad:
+                run.count("model_vs_code_diff")
+                run.violation("correspondence:Pullup.combined", dict(rep, what="combined constraints: the resolution model (Fix/Pullup.v, unseeded) and asn1c disagree",
+                              diffs=[list(map(str, x)) for x in cbad[:4]]), no_input=not (obad or deviating))
+            if obad:
+                run.violation("oracle:combined-constraints", dict(rep, what="the combined constraints asn1c prints are not the ones the module set denotes "
+                              "(references resolved, parent's constraints first)", diffs=[list(map(str, x)) for x in obad[:4]]))
+            if not cbad and not obad:
+                run.count("xmod_combined_ok")
+    if xsets:
+        run.sample({"xmod_set": [m["text"] for m in xsets[0]["mods"]], "shape": xsets[0]["shape"]})
+
     # 5. shipped corpus ------------------------------------------------------
     for p, f in zip(files, corpus_futs):
         r = f.result()
@@ -1138,6 +1331,81 @@ def main(tier):
                                    "model-algebra modules are generated with -pdu=all -fcompound-names; rich modules and clash sets with one of 12 option sets",
                                    "module OIDs are outside the naming model (generated clash sets have none)",
                                    "-D spellings: per-type files are compared with the header line quoting the command line removed"])
+
+
+def same_xmod_result(perms, pa, pb):
+    a = [p for p in perms if p["perm"] == pa][0]
+    b = [p for p in perms if p["perm"] == pb][0]
+    if (a["rcE"], a["rcG"]) != (b["rcE"], b["rcG"]):
+        return False
+    if any(a["pc"].get(m, {}).get("text") != b["pc"].get(m, {}).get("text") for m in set(a["pc"]) | set(b["pc"])):
+        return False
+    return not diff_trees(a["files"], b["files"])
+
+
+def explain_stale_asn(xs, perms):
+    """finding C12-print-constraints-stale-asn, as narrow as its cause: the set has a type whose constraint stays a
+    TYPE after resolution (contained subtype naming an unconstrained type) in module M; code generation and
+    its files are the same in every order; `-E -F -print-constraints` dies (SIGSEGV/SIGABRT: mod->asn1p of a
+    module that did not come from the first file is a freed pointer) only in orders where M's file is not the
+    first, and prints the same text in all other orders"""
+    X = xs.get("xs")
+    if X is None:
+        return False
+    ms = {t["mod"] for t in X.types if any(l[0] == "I" and X.leaves(l[1]) is None for l in t["own"])}
+    if not ms:
+        return False
+    if any((p["rcG"], ) != (perms[0]["rcG"], ) or diff_trees(p["files"], perms[0]["files"]) for p in perms):
+        return False
+    ok = [p for p in perms if p["rcE"] == 0]
+    if any(p["rcE"] not in (0, -11, -6) for p in perms) or not ok:
+        return False
+    if any(p["pc"].get(m, {}).get("text") != ok[0]["pc"].get(m, {}).get("text") for p in ok for m in set(p["pc"]) | set(ok[0]["pc"])):
+        return False
+    return all(p["perm"][0] not in ms for p in perms if p["rcE"] != 0)
+
+
+def model_word_leaves(word, X):
+    """a word of the c12_pull answer in the form constraint_leaves gives for the C's text"""
+    if word == "N":
+        return None
+    out = []
+    for lf in word[2:].split(","):
+        if lf[0] == "L":
+            lo, hi = lf[1:].split("..")
+            out.append(("r", lo, hi))
+        elif lf[0] == "V":
+            lo, v = lf[1:].split("..v")
+            out.append(("r", lo, X.vals[int(v)]["name"]))
+        else:
+            out.append(("t", X.types[int(lf[1:])]["name"]))
+    return out
+
+
+def includes_foreign_with_refs(mods):
+    """root-cause predicate of finding C12-includes-foreign-namespace, on the module texts: module P has a contained
+    subtype constraint naming a type U it imports from module Q, and U's own constraint (in Q) holds a reference
+    (a value or type name).  Returns the (P, Q) index pairs."""
+    out = []
+    texts = [strip_comments(m["text"]) for m in mods]
+    names = [m["name"] for m in mods]
+    for pi, t in enumerate(texts):
+        imp = re.search(r"\bIMPORTS\b(.*?);", t, flags=re.S)
+        if not imp:
+            continue
+        imported = {}
+        for mm in re.finditer(r"([^;]*?)\bFROM\s+([A-Z][A-Za-z0-9-]*)", imp.group(1)):
+            for sym in re.findall(r"[A-Za-z][A-Za-z0-9-]*", mm.group(1)):
+                imported[sym] = mm.group(2)
+        body = t[imp.end():]
+        for mm in re.finditer(r"[(|^]\s*(?:INCLUDES\s+)?([A-Z][A-Za-z0-9-]*)\s*[)|^]", body):
+            u = mm.group(1)
+            if u in imported and imported[u] in names:
+                qi = names.index(imported[u])
+                d = re.search(r"\b%s\s*::=\s*[^\n]*?\((.*)\)" % re.escape(u), texts[qi])
+                if d and re.search(r"[A-Za-z]", re.sub(r"\b(SIZE|FROM|INCLUDES|MIN|MAX)\b", "", d.group(1))):
+                    out.append((pi, qi))
+    return sorted(set(out))
 
 
 def classify_rich_fixpoint(m, t1, rc1, se1):
